@@ -57,8 +57,8 @@ def run(ctx):
         jobs = [(ctx.rng.randrange(10**9), ctx.rng.randint(5, 8), 12 if k < 12 else 40, k < 12) for k in range(160)]
         sjobs = sampler_plan(ctx, 60, 6)
     else:
-        jobs = [(ctx.rng.randrange(10**9), ctx.rng.randint(5, 10), 14 if k < 30 else ctx.rng.choice([40, 80, 150, 300]), k < 30) for k in range(330)]
-        sjobs = sampler_plan(ctx, 180, 10)
+        jobs = [(ctx.rng.randrange(10**9), ctx.rng.randint(5, 10), 14 if k < 30 else ctx.rng.choice([40, 80, 150, 300]), k < 30) for k in range(700)]
+        sjobs = sampler_plan(ctx, 420, 10)
     results = h.run_histories(ctx, jobs)
     n_edits = 0
     for r in results:
